@@ -718,6 +718,15 @@ class TraitCompound(TraitHandler):
                 return validate(object, name, value)
             except TraitError:
                 pass
+        # A compiled validator that was computed before a lazily resolved
+        # alternative (e.g. Instance("ClassName")) got its own compiled check
+        # - for example another object's copy of the trait - still sends
+        # that alternative's values here: give those alternatives a chance.
+        for validate in self.validates:
+            try:
+                return validate(object, name, value)
+            except TraitError:
+                pass
         self.error(object, name, value)
 
     def full_info(self, object, name, value):
